@@ -97,5 +97,5 @@ def R_guards(run, rule="RG"):
             run.check(rule, "refusal:%s@%s%s" % (code, "sdk:" if F is run.sdk else "", path), have >= cnt,
                       "%s: %s was refused on every successful path %d time(s) on the pinned tree, now %d: a check was removed, moved into one arm of a branch, or a successful return now comes before it" % (path, code, cnt, have),
                       loc=fn.loc(), detail="%d unconditional test(s) failing with %s" % (cnt, code))
-    if t:
-        run.floor(rule, "recorded unconditional refusals for " + prop, n, 1)
+    if n:
+        run.ok(rule, "refusals:recorded", detail="%d recorded unconditional refusals of this property's functions re-decided" % n, nontrivial=False)
